@@ -1,2 +1,161 @@
-import Simfile.Model.Views
-import Simfile.Model.Convert
+/-
+C16: SM → SSC conversion keeps everything: no property is invalid for SSC, so every property and every chart
+field of the source arrives in the output, after the template's own keys; negative BPMs / stops are refused.
+-/
+import Simfile.Lemmas.Convert
+namespace Simfile.C16
+open Simfile Simfile.O Simfile.V Simfile.Cv
+
+/-! ### 17. nothing is invalid for SSC -/
+
+theorem no_invalid_for_ssc : T.invalidSSCSimfile = [] ∧ T.invalidSSCChart = [] := by decide
+
+theorem should_copy_ssc (k : Str) (v : Option Str) (beh : List (Nat × Nat)) :
+    shouldCopy k v T.invalidSSCSimfile beh = .ok true ∧ shouldCopy k v T.invalidSSCChart beh = .ok true := by
+  rw [no_invalid_for_ssc.1, no_invalid_for_ssc.2]; exact ⟨rfl, rfl⟩
+
+/-! ### 18. everything is kept -/
+
+/-- `Cv.startOf`, `Cv.chartStartOf`: the object the conversion starts from — the template unless it is missing
+or has no items, else the generated blank object -/
+theorem startOf_def (toSSC : Bool) (st : Option AnySimfile) :
+    startOf toSSC st = match st with
+      | some t => if t.props.isEmpty then blankSimfile toSSC else t
+      | none => blankSimfile toSSC := rfl
+theorem chartStartOf_def (toSSC : Bool) (ct : Option (Dict × Option (List Str))) :
+    chartStartOf toSSC ct = match ct with
+      | some t => if t.1.isEmpty then blankChart toSSC else t
+      | none => blankChart toSSC := rfl
+
+/-- the whole result of a successful SM → SSC conversion, in closed form: `Dict.set` folded over ALL items of the
+source, starting from the template -/
+theorem result (sm out : AnySimfile) (st : Option AnySimfile) (ct : Option (Dict × Option (List Str)))
+    (beh : List (Nat × Nat)) (h : convert sm true st ct beh = .ok out) :
+    out = { isSSC := true,
+            props := setAll (startOf true st).props sm.props,
+            charts := (startOf true st).charts ++
+              sm.charts.map fun c => (setAll (chartStartOf true ct).1 c.1, (chartStartOf true ct).2) } := by
+  rw [convert_eq] at h
+  cases hw : convertWarps sm with
+  | error e => rw [hw] at h; cases h
+  | ok u =>
+    rw [hw] at h
+    simp only [] at h
+    have hi : invSimOf true = [] := no_invalid_for_ssc.1
+    have hc : invChartOf true = [] := no_invalid_for_ssc.2
+    rw [hi, copyProperties_nil_invalid] at h
+    simp only [] at h
+    have hm : sm.charts.mapM (convChart true ct beh) =
+        .ok (sm.charts.map fun c => (setAll (chartStartOf true ct).1 c.1, (chartStartOf true ct).2)) := by
+      apply mapM_ok_of_forall
+      intro c _
+      rw [convChart_eq, hc]
+      show (match copyProperties false c.1 (chartStartOf true ct).1 [] beh with
+        | .error e => Except.error e
+        | .ok d => Except.ok (d, (chartStartOf true ct).2)) = _
+      rw [copyProperties_nil_invalid]
+    rw [hm] at h
+    simp only [Except.ok.injEq] at h
+    exact h.symm
+
+/-- every property of the source is in the output with its value; the template's keys keep their positions, new
+keys follow in source order; template values survive unless the source has the key -/
+theorem props_kept (sm out : AnySimfile) (st : Option AnySimfile) (ct : Option (Dict × Option (List Str)))
+    (beh : List (Nat × Nat)) (h : convert sm true st ct beh = .ok out) :
+    (Dict.WF sm.props → ∀ kv ∈ sm.props, out.props.get? kv.1 = some kv.2) ∧
+    Dict.keys out.props = Dict.keys (startOf true st).props ++
+      ((sm.props.map (·.1)).filter (fun k => !(Dict.keys (startOf true st).props).contains k)).eraseDups ∧
+    (∀ k, k ∉ Dict.keys sm.props → out.props.get? k = (startOf true st).props.get? k) ∧
+    (Dict.WF (startOf true st).props → Dict.WF out.props) := by
+  rw [result sm out st ct beh h]
+  refine ⟨fun hwf kv hkv => get?_setAll_of_mem_WF _ _ kv hwf hkv, keys_setAll _ _, fun k hk => ?_,
+    fun hwf => WF_setAll _ _ hwf⟩
+  apply get?_setAll_of_not_mem
+  intro kv hkv e
+  exact hk (e ▸ List.mem_map.mpr ⟨kv, hkv, rfl⟩)
+
+/-- the output charts are the template's charts followed by one chart per source chart, in order, each holding
+every field of its source chart (on top of the chart template) -/
+theorem charts_kept (sm out : AnySimfile) (st : Option AnySimfile) (ct : Option (Dict × Option (List Str)))
+    (beh : List (Nat × Nat)) (h : convert sm true st ct beh = .ok out) :
+    out.charts = (startOf true st).charts ++
+      sm.charts.map (fun c => (setAll (chartStartOf true ct).1 c.1, (chartStartOf true ct).2)) ∧
+    out.charts.length = (startOf true st).charts.length + sm.charts.length ∧
+    ∀ c ∈ sm.charts, Dict.WF c.1 → ∀ kv ∈ c.1, (setAll (chartStartOf true ct).1 c.1).get? kv.1 = some kv.2 := by
+  rw [result sm out st ct beh h]
+  refine ⟨rfl, by simp, fun c _ hwf kv hkv => get?_setAll_of_mem_WF _ _ kv hwf hkv⟩
+
+/-- the conversion succeeds exactly when `_convert_warps` does -/
+theorem succeeds_iff (sm : AnySimfile) (st : Option AnySimfile) (ct : Option (Dict × Option (List Str)))
+    (beh : List (Nat × Nat)) :
+    (∃ out, convert sm true st ct beh = .ok out) ↔ convertWarps sm = .ok () := by
+  rw [convert_eq]
+  have hi : invSimOf true = [] := no_invalid_for_ssc.1
+  have hc : invChartOf true = [] := no_invalid_for_ssc.2
+  have hm : sm.charts.mapM (convChart true ct beh) =
+      .ok (sm.charts.map fun c => (setAll (chartStartOf true ct).1 c.1, (chartStartOf true ct).2)) := by
+    apply mapM_ok_of_forall
+    intro c _
+    rw [convChart_eq, hc]
+    show (match copyProperties false c.1 (chartStartOf true ct).1 [] beh with
+      | .error e => Except.error e
+      | .ok d => Except.ok (d, (chartStartOf true ct).2)) = _
+    rw [copyProperties_nil_invalid]
+  cases hw : convertWarps sm with
+  | error e => simp
+  | ok u => rw [hi, copyProperties_nil_invalid, hm]; simp
+
+example : convert ⟨false, [("FREEZES".toList, some "1=2".toList), ("TITLE".toList, some "x".toList)],
+    [(T.blankSMChart, none)]⟩ true none none [] =
+    .ok ⟨true, Dict.set (Dict.set T.blankSSCSimfile "FREEZES".toList (some "1=2".toList)) "TITLE".toList (some "x".toList),
+      [(setAll T.blankSSCChart T.blankSMChart, none)]⟩ := by decide +kernel
+
+/-- observation: the SM-only alias FREEZES is kept as a key, but an SSC simfile has no such alias, so the stops
+are no longer visible through the `stops` attribute of the result -/
+example : (convert ⟨false, [("FREEZES".toList, some "1=2".toList)], []⟩ true none none []).map
+      (fun out => (out.props.get? "FREEZES".toList, attrGet .sscSimfile out.props "stops".toList)) =
+    .ok (some (some "1=2".toList), some []) := by decide +kernel
+
+/-! ### 19. negative BPMs and stops -/
+
+/-- an SM source with a negative BPM or stop value is refused -/
+theorem negative_refused (sm : AnySimfile) (toSSC : Bool) (st : Option AnySimfile)
+    (ct : Option (Dict × Option (List Str))) (beh : List (Nat × Nat)) (hs : sm.isSSC = false)
+    (b s : List BVRow)
+    (hb : beatValuesFromStr (attrGet .smSimfile sm.props "bpms".toList) = some b)
+    (hst : beatValuesFromStr (attrGet .smSimfile sm.props "stops".toList) = some s)
+    (hneg : ∃ r ∈ b ++ s, ∃ q, parseDecimal r.value = some q ∧ q < 0) :
+    convert sm toSSC st ct beh = .error .notImplemented := by
+  have e1 : "bpms".toList = ['b','p','m','s'] := by decide
+  have e2 : "stops".toList = ['s','t','o','p','s'] := by decide
+  rw [e1] at hb; rw [e2] at hst
+  rw [convert_eq, convertWarps_sm sm hs, hb, hst]
+  obtain ⟨r, hr, q, hq, hn⟩ := hneg
+  have : (hasNegative b || hasNegative s) = true := by
+    rcases List.mem_append.mp hr with hr | hr
+    · rw [hasNegative_of_mem b r q hr hq hn]; rfl
+    · rw [hasNegative_of_mem s r q hr hq hn]; simp
+  simp only [this, if_true]
+
+/-- BPMS or stops that do not parse as `beat=value` rows are a ValueError -/
+theorem unparsable_refused (sm : AnySimfile) (toSSC : Bool) (st : Option AnySimfile)
+    (ct : Option (Dict × Option (List Str))) (beh : List (Nat × Nat)) (hs : sm.isSSC = false)
+    (h : beatValuesFromStr (attrGet .smSimfile sm.props "bpms".toList) = none ∨
+      beatValuesFromStr (attrGet .smSimfile sm.props "stops".toList) = none) :
+    convert sm toSSC st ct beh = .error .valueError := by
+  have e1 : "bpms".toList = ['b','p','m','s'] := by decide
+  have e2 : "stops".toList = ['s','t','o','p','s'] := by decide
+  rw [e1, e2] at h
+  rw [convert_eq, convertWarps_sm sm hs]
+  rcases h with h | h
+  · rw [h]
+  · rw [h]; cases beatValuesFromStr (attrGet .smSimfile sm.props ['b','p','m','s']) <;> rfl
+
+example : convert ⟨false, [("BPMS".toList, some "0=120,x".toList)], []⟩ true none none [] = .error .valueError := by
+  decide +kernel
+example : convert ⟨false, [("BPMS".toList, some "0=120,4=-90".toList)], []⟩ true none none [] =
+    .error .notImplemented := by decide +kernel
+example : convert ⟨false, [("BPMS".toList, some "0=120".toList), ("FREEZES".toList, some "4=-1".toList)], []⟩
+    true none none [] = .error .notImplemented := by decide +kernel
+
+end Simfile.C16
